@@ -22,6 +22,13 @@ STRENGTHENED = {
     "C15-agent2": "C15 gained F7 (unpaired-digit ValueError exit); T2 no longer flags `for b in buffer` (iteration is iterator-protocol use)",
     "C17-agent2": "C17-M2 learned the arithmetic row family and requires zero padding to the field width (before: exit 2)",
     "C19-agent2": "C19-L2: the only raise of convert() must be guarded by `tpm_type is not CommandResponseStream and --in=auto` at top level",
+    "C01-agent3": "first contact: exit 2 (no int.from_bytes call). The reader rules gained a second recognised idiom - in-place big-endian accumulation with two's-complement correction - and judge its threshold exactly (`>=` 2^(8n-1)); a correct variant of the idiom is a benign twin",
+    "C02-agent3": "first contact: escaped every check. New rule `primitive event once` (C02-B3 = C01-W2 = C04-V1 = C08-Y6): on every returning path of the primitive walker the field's own event is emitted exactly once, before any warning",
+    "C05-agent3": "first contact: escaped every check. New shared rule `error carriers` (C05-E1 = C13-A1 = C03-R7 = C04-V6): every detail attribute of the exception classes is the constructor argument of that name on every path",
+    "C06-agent3": "first contact: C06 silent (C01-F fired through a text comparison). The `encrypted()` substitution guard is now evaluated over every dataclass of L (C01-F, C06-X1): it must hold exactly for the TPMS_PARAMS subclasses",
+    "C09-agent3": "first contact: C09 silent (C05-E3 fired). C09 gained S6 = C05-E3 (a stream ends silently only at a message boundary)",
+    "C10-agent3": "first contact: exit 2 in 12 checks - the normaliser inlined the new event-holding sub-pump into process_tpm2b, which then looked like a second pump. The pump role now requires the driver to feed from `iter(<own parameter>)`; C10-T1 then reports the byte request inside process_tpm2b",
+    "C12-agent3": "first contact: C12 silent (C03-R1 fired). C12-P1 now treats method calls that write `self` on a module-level instance of a repo class (directly or through a local alias / a method returning self) as cross-decode state; helper methods other modules mention are kept by the normaliser",
 }
 rows = []
 for m in sorted(glob.glob(os.path.join(os.path.dirname(os.path.dirname(os.path.abspath(__file__))), "seeded", "*", "meta.json"))):
